@@ -109,7 +109,11 @@ def _satsolve_filein_fileout(F, cmd='minisat', verbose=0):
 
         result = True
 
-        witness = [int(v) for v in foutput[1:] if v != '0']
+        try:
+            witness = [int(v) for v in foutput[1:] if v != '0']
+        except ValueError:
+            raise RuntimeError("Error during SAT solver call: {}.\n".format(
+                " ".join([cmd, cnf.name, sat.name])))
         # Sort the the witness by variable id
         witness = sorted(witness, key=abs)
 
@@ -212,16 +216,21 @@ def _satsolve_stdin_stdout(F, cmd='lingeling', verbose=0):
             continue
 
         if line[0] == 's':
-            if line.split()[1] == 'SATISFIABLE':
+            status = line.split()[1:2]
+            if status == ['SATISFIABLE']:
                 result = True
-            elif line.split()[1] == 'UNSATISFIABLE':
+            elif status == ['UNSATISFIABLE']:
                 result = False
             else:
                 result = None
         if line[0] == 'v':
-            witness += [
-                int(el) for el in line.split() if el != "v" and el != "0"
-            ]
+            try:
+                witness += [
+                    int(el) for el in line.split() if el != "v" and el != "0"
+                ]
+            except ValueError:
+                raise RuntimeError(
+                    "Error during SAT solver call: {}.\n".format(cmd))
 
     if result is None:
         raise RuntimeError("Error during SAT solver call: {}.\n".format(cmd))
@@ -307,16 +316,21 @@ def _satsolve_filein_stdout(F, cmd='sat4j', verbose=0):
             continue
 
         if line[0] == 's':
-            if line.split()[1] == 'SATISFIABLE':
+            status = line.split()[1:2]
+            if status == ['SATISFIABLE']:
                 result = True
-            elif line.split()[1] == 'UNSATISFIABLE':
+            elif status == ['UNSATISFIABLE']:
                 result = False
             else:
                 result = None
         if line[0] == 'v':
-            witness += [
-                int(el) for el in line.split() if el != "v" and el != "0"
-            ]
+            try:
+                witness += [
+                    int(el) for el in line.split() if el != "v" and el != "0"
+                ]
+            except ValueError:
+                raise RuntimeError(
+                    "Error during SAT solver call: {}.\n".format(cmd + " " + cnf.name))
 
     if result is None:
         raise RuntimeError(
